@@ -710,8 +710,11 @@ def reference(line):
             # readAs: fully typed tables only; an 's' column returns the text written, whatever it spells
             types, sep, dec, n = ("" if t[1] == "-" else t[1]), int(t[2]), int(t[3]), int(t[4])
             names, cells = t[5:5 + n], t[5 + n:]
-            if len(types) != n or n < 2 or any(c in "[]=" for c in cells):
+            if n < 2 or any(c in "[]=" for c in cells):
                 return None
+            # fewer type characters than columns: the rest is inferred ('?': numbers stay numbers, the generated strings do not
+            # spell numbers); more: ignored (csv_typed_row_prefix)
+            types = (types + "?" * n)[:n]
             out = []
             for i in range(0, len(cells) - len(cells) % n, n):
                 cs = []
@@ -729,6 +732,14 @@ def reference(line):
                         if not (c.startswith("n:") and re.match(r"^-?\d+$", c[2:]) and abs(int(c[2:])) < 2 ** 31):
                             return None
                         cs.append("i%d" % int(c[2:]))
+                    elif ty == "?":
+                        if c.startswith("n:"):
+                            cs.append("n" + hexs(fmt15(float(c[2:]))))
+                        else:
+                            x = unhex(c[2:])
+                            if NUMLIKE.match(x.replace(b",", b".")) or x[:1] == b"\xef":
+                                return None
+                            cs.append("s" + c[2:])
                     elif ty == "h":
                         # plain hex texts (optional 0x) below 2^32: Var(unsigned) is INT below 2^31, else a double
                         x = unhex(c[2:]).decode("latin1") if c.startswith("s:") else c[2:]
@@ -852,5 +863,6 @@ LEVEL_NOTE = ("NO THEOREM covers the '15 significant digits' clause itself: that
               "(csv_table_roundtrip_decimal_comma, untyped; csv_table_roundtrip_typed, typed); one-column tables with a non-default separator are outside (no separator in the file to sniff, "
               "csv_one_column_needs_default_separator); rows of the typed / separator table theorems must not start with byte 0xEF (BOM test); number texts with more than 18 mantissa or 9 exponent digits overflow in the C code and are "
               "outside theorem and generator. Not modelled: IniFile::section()/arraysize()/array() (deprecated), write(otherName); TabularDataFile ARFF output, "
-              "flushEvery; readAs() with fewer type characters "
-              "than columns (the rest inferred) is in the model and K (op tabrtt) but the theorems take one type character per column; useQuotes() has no effect in the library. Trusted: Lean kernel, harness/c18.cpp, the generator; libc fgets/feof, strtod, snprintf %.15g, pow as listed.")
+              "flushEvery; readAs() with fewer or more type characters "
+              "than columns: csv_typed_row_prefix (typed cells as in csv_typed_row, the cells beyond the type string inferred and back as written for the decimal settings ./. , . read in a ';' file, ,/,; "
+              "surplus type characters ignored) at row level, K op tabrtt with python oracle; the whole-TABLE typed theorems still take one type character per column; useQuotes() has no effect in the library. Trusted: Lean kernel, harness/c18.cpp, the generator; libc fgets/feof, strtod, snprintf %.15g, pow as listed.")
